@@ -200,6 +200,13 @@ func startGood(ts *testServer, udp bool, reusePorts int) (*goodClient, error) {
 				if err == nil {
 					b, err = net.ListenUDP("udp", &net.UDPAddr{IP: net.IPv4(127, 0, 0, 1), Port: p + 1})
 				}
+				if err != nil {
+					// the port is taken by some other process of the machine: use fresh ones
+					if a != nil {
+						a.Close()
+					}
+					a, b, p, err = udpPair()
+				}
 			} else {
 				a, b, p, err = udpPair()
 			}
